@@ -72,6 +72,16 @@ Theorem C18_import_passthrough : forall o rec p r endp at_start st,
 Proof. exact import_passthrough. Qed.
 Print Assumptions C18_import_passthrough.
 
+(* without an import sign the rule passes through with its meaning intact: a dotted layer name is written by the value
+   walker, whatever the class prefix (it used to come out as `layer(x.p--y)`) *)
+Theorem C18_import_passthrough_layer : forall o rec contain mark path p x px body be cl ps r st,
+  str_eqb_ci x s_layer = true ->
+  at_prelude o rec contain mark (Leaf (TStr path) p :: Block (TFunc x) px body be cl :: Leaf TSemi ps :: r) st =
+  (r, tok_at (tok_at (rpx_body o false body None (tok_at (tok_at st (TStr path) p None) (TFunc x) px None))
+                     TCloseParen px None) TSemi ps None).
+Proof. exact import_passthrough_layer. Qed.
+Print Assumptions C18_import_passthrough_layer.
+
 Theorem C18_import_position_warning : forall o rec sign p r endp st,
   import_sign o = Some sign ->
   exists rest st',
